@@ -312,7 +312,7 @@ Lemma rotate_psteps allowed kg a b ok s s' : rotate_msg a b ok s = Ok s' -> pste
 Proof.
   unfold rotate_msg. destruct (mem a (rrtok s)); [discriminate|].
   destruct (negb (mem a (secrets s))); [discriminate|]. destruct (negb ok); [discriminate|].
-  destruct (mem b (rotated s)); [discriminate|]. destruct (rot_check s && has_records s b); [discriminate|].
+  destruct (mem b (rotated s)); [discriminate|]. destruct (rot_check s && has_records s b); [discriminate|]. destruct (actor_check s && is_actor s b); [discriminate|].
   destruct (negb (mem a (accts s))); [discriminate|].
   destruct (mem b (accts s)); [discriminate|]. intros H. bind_inv H.
   eapply psteps_trans; [eapply move_bal_psteps; eauto|]. eapply rotate_core_psteps; eauto.
@@ -320,7 +320,7 @@ Qed.
 Lemma rotate_rr_psteps allowed kg a b ok s s' : rotate_rr a b ok s = Ok s' -> psteps allowed kg True s s'.
 Proof.
   unfold rotate_rr. destruct (negb (mem a (rrtok s))); [discriminate|]. destruct (negb ok); [discriminate|].
-  destruct (mem b (rotated s)); [discriminate|]. destruct (rot_check s && has_records s b); [discriminate|]. apply rotate_core_psteps.
+  destruct (mem b (rotated s)); [discriminate|]. destruct (rot_check s && has_records s b); [discriminate|]. destruct (actor_check s && is_actor s b); [discriminate|]. apply rotate_core_psteps.
 Qed.
 
 Theorem step_psteps (kg : state -> string -> Prop) s o s' :
@@ -836,7 +836,7 @@ Definition owner_frame (s : state) (o : op) (s' : state) : Prop :=
 Definition bal0 : acct -> string -> Z := fun x d => match x with User _ => 5000 | Gov => 0 end.
 (* the OLD variant of the code: [del_fix = false] (DeleteIdentityRecordById left the index entry
    behind, before commit 9fe909f) and [msg_guard = false] (whole-record write unguarded) *)
-Definition s0 : state := init_state "moniker,username" 0 [0] [1] [6] [0; 1; 2; 3] [0; 1; 2; 3] bal0 false false [] false.
+Definition s0 : state := init_state "moniker,username" 0 [0] [1] [6] [0; 1; 2; 3] [0; 1; 2; 3] bal0 false false [] false false.
 
 Lemma KU_s0 : KU s0.
 Proof. split; intros r; simpl; tauto. Qed.
